@@ -1338,6 +1338,7 @@ func runPFw(id string, c *Case, limit time.Duration, retry bool) string {
 		px.StopCaching = p.Stop
 		before := hooks.MemoryEntries(cache)
 		ch := make(chan stepres, 1)
+		inflightBad := ""
 		go func() {
 			var sb strings.Builder
 			var handed []byte
@@ -1351,6 +1352,20 @@ func runPFw(id string, c *Case, limit time.Duration, retry bool) string {
 				n, e := rc.Read(buf)
 				handed = append(handed, buf[:n]...)
 				fmt.Fprintf(&sb, "r=%s/%s ", dstr(buf[:n]), errEnum(e))
+			}
+			// in flight: an unlimited cache push cannot finish before Close (it has not seen
+			// EOF yet), so the cache must not show the descriptor now unless it did before
+			if _, limited := limitOf(c.Kind); !limited && !p.Stop {
+				wasThere := false
+				for _, e := range before {
+					if e.MediaType == p.MT && e.Digest == p.DG && e.Size == p.SZ {
+						wasThere = true
+					}
+				}
+				if x, _ := cache.Exists(ctx, d); x != wasThere {
+					inflightBad = fmt.Sprintf("before Close the cache answers Exists=%v for a descriptor it %s before the fetch", x, map[bool]string{true: "held", false: "did not hold"}[wasThere])
+				}
+				run.Count("judged:proxy-inflight")
 			}
 			fmt.Fprintf(&sb, "c=%s |", errEnum(rc.Close()))
 			ch <- stepres{obs: sb.String(), handed: handed}
@@ -1369,6 +1384,9 @@ func runPFw(id string, c *Case, limit time.Duration, retry bool) string {
 		obs = append(obs, r.obs)
 		// ---- oracle (independent of the model)
 		tag := fmt.Sprintf("proxy fetch %d/%d (%s): ", i+1, len(c.Pushes), c.Kind)
+		if inflightBad != "" {
+			fail(id, "proxy-inflight-visible", tag+inflightBad, c)
+		}
 		st := streamOf(p.Script)
 		var cachedBefore []byte
 		hit := false
